@@ -43,7 +43,14 @@ pub struct Case {
     pub add_again: bool,
     pub shutdown_again: bool,
     pub jitter: u16,
+    /// > 0: the first callback invocation of the case takes this many milliseconds, so that the
+    /// router is busy inside a callback (with further messages queued behind it) when it is stopped
+    #[serde(default)]
+    pub slow_ms: u16,
 }
+
+/// Milliseconds the next callback invocation sleeps (consumed by the first one that sees it).
+static SLOW_MS: AtomicU64 = AtomicU64::new(0);
 
 struct Guard {
     fired: Arc<AtomicU64>,
@@ -74,6 +81,10 @@ fn callback_route(proxy: &RouterProxy) -> Result<(IpcSender<Node>, Cb), Failure>
         Box::new(move |_m| {
             let _ = &guard;
             inv.lock().unwrap().push(stamp());
+            let ms = SLOW_MS.swap(0, SeqCst);
+            if ms > 0 {
+                std::thread::sleep(Duration::from_millis(ms));
+            }
         }),
     );
     Ok((tx, Cb { invoked, fired, done: drx }))
@@ -90,8 +101,8 @@ impl Prop for C17 {
 
     fn strategy(_ctx: &Ctx) -> BoxedStrategy<Case> {
         let route = (0u8..3, 0u8..6, any::<bool>()).prop_map(|(kind, msgs_before, keep_sending)| RouteK { kind, msgs_before, keep_sending });
-        (proptest::collection::vec(route, 0..=16), 0u8..=4, 0u8..=4, any::<bool>(), any::<bool>(), any::<bool>(), 0u16..3000)
-            .prop_map(|(routes, shutdown_threads, adders, send_more, add_again, shutdown_again, jitter)| Case { routes, shutdown_threads, adders, send_more, add_again, shutdown_again, jitter })
+        (proptest::collection::vec(route, 0..=16), 0u8..=4, 0u8..=4, any::<bool>(), any::<bool>(), any::<bool>(), 0u16..3000, prop_oneof![30 => Just(0u16), 1 => 600u16..900])
+            .prop_map(|(routes, shutdown_threads, adders, send_more, add_again, shutdown_again, jitter, slow_ms)| Case { routes, shutdown_threads, adders, send_more, add_again, shutdown_again, jitter, slow_ms })
             .boxed()
     }
 
@@ -111,6 +122,7 @@ impl Prop for C17 {
 
 fn run(case: &Case) -> Result<Outcome, Failure> {
     let wd = Duration::from_secs(sandbox::watchdog_secs());
+    SLOW_MS.store(case.slow_ms as u64, SeqCst);
     let proxy = Arc::new(RouterProxy::new());
     let mut proxy_kept: Option<Arc<RouterProxy>> = None;
     // sentinel callback route: always present, so that there is always a handler whose drop marks
@@ -308,6 +320,20 @@ fn run(case: &Case) -> Result<Outcome, Failure> {
             }
         }
     }
+    // a stopped router has released the receivers of its routes: sends on the old routes start to
+    // fail (the router thread lets go of them right after it acknowledged, so "eventually")
+    let t0 = std::time::Instant::now();
+    for (i, (t, _)) in senders.iter().enumerate() {
+        loop {
+            if t.send(Node::U32(0xdead_2)).is_err() {
+                break;
+            }
+            if t0.elapsed() > wd {
+                fail!("stop:routes-still-open", "the router has stopped (every callback is gone) but the receiver of route {} is still open somewhere: sends on it keep succeeding {:?} later", i, t0.elapsed());
+            }
+            std::thread::sleep(Duration::from_micros(200));
+        }
+    }
     let nt = (!case.routes.is_empty() && in_flight) || (case.shutdown_threads as usize + case.adders as usize) >= 2;
     let class = format!(
         "{}{}{}{}",
@@ -315,7 +341,7 @@ fn run(case: &Case) -> Result<Outcome, Failure> {
         if case.adders > 0 && case.shutdown_threads > 0 { format!("+{}adders", case.adders) } else { String::new() },
         if in_flight { "+traffic-in-flight" } else { "" },
         if case.routes.is_empty() { "+no-routes" } else { "" }
-    );
+    ) + if case.slow_ms > 0 { "+slow-callback" } else { "" };
     Ok(Outcome::new(nt, class).with("routes", case.routes.len() as u64))
 }
 
